@@ -83,6 +83,52 @@ pub(super) fn extract_variables_from_expr(expr: &Expression, vars: &mut HashSet<
                 extract_variables_from_expr(&pair.value, vars);
             }
         }
+        Expression::Case(c) => {
+            if let Some(test) = &c.expression {
+                extract_variables_from_expr(test, vars);
+            }
+            for (when_expr, then_expr) in &c.when_clauses {
+                extract_variables_from_expr(when_expr, vars);
+                extract_variables_from_expr(then_expr, vars);
+            }
+            if let Some(else_expr) = &c.else_expression {
+                extract_variables_from_expr(else_expr, vars);
+            }
+        }
+        Expression::ListComprehension(comp) => {
+            extract_variables_from_expr(&comp.list, vars);
+            let mut scoped = HashSet::new();
+            if let Some(where_expr) = &comp.where_expression {
+                extract_variables_from_expr(where_expr, &mut scoped);
+            }
+            if let Some(map_expr) = &comp.map_expression {
+                extract_variables_from_expr(map_expr, &mut scoped);
+            }
+            scoped.remove(&comp.variable);
+            vars.extend(scoped);
+        }
+        Expression::PatternComprehension(comp) => {
+            // Variables of the pattern may be bound outside (then they are read) or introduced
+            // here; callers intersect with the bindings in scope, so report them all.
+            for element in &comp.pattern.elements {
+                let (variable, properties) = match element {
+                    crate::ast::PathElement::Node(n) => (&n.variable, &n.properties),
+                    crate::ast::PathElement::Relationship(r) => (&r.variable, &r.properties),
+                };
+                if let Some(v) = variable {
+                    vars.insert(v.clone());
+                }
+                if let Some(map) = properties {
+                    for pair in &map.properties {
+                        extract_variables_from_expr(&pair.value, vars);
+                    }
+                }
+            }
+            if let Some(where_expr) = &comp.where_expression {
+                extract_variables_from_expr(where_expr, vars);
+            }
+            extract_variables_from_expr(&comp.projection, vars);
+        }
         _ => {}
     }
 }
